@@ -6,8 +6,8 @@ include!("../common.rs");
 use jsonwebtoken::model as jm;
 use crate::verif_oracle as ho;
 
-const KB: &str = "kh.kp.ks";
-const JWT: &str = "h.p.s";
+const KB: &str = "k";
+const JWT: &str = "j";
 
 fn cnf(kty: &str, x: &str) -> JMap<String, JValue> {
     let mut jwk = JMap::new();
@@ -22,8 +22,8 @@ fn cnf(kty: &str, x: &str) -> JMap<String, JValue> {
 
 fn mk_verifier(format: SDJWTSerializationFormat, cnf: Option<JMap<String, JValue>>, kb: Option<&str>) -> SDJWTVerifier {
     let mut disclosures = Vec::with_capacity(2);
-    disclosures.push("d1".to_string());
-    disclosures.push("d2".to_string());
+    disclosures.push("d".to_string());
+    disclosures.push("e".to_string());
     SDJWTVerifier {
         sd_jwt_payload: JMap::new(),
         _holder_public_key_payload: cnf,
@@ -62,7 +62,7 @@ fn sym_format() -> SDJWTSerializationFormat {
 /// digest the ideal hash assigns to the presented `jwt~d1~d2~`
 fn presented_digest() -> String {
     ho::hash_on(2, b'c');
-    crate::utils::base64_hash(b"h.p.s~d1~d2~")
+    crate::utils::base64_hash(b"j~d~e~")
 }
 
 fn holder_key_id() -> u64 { jsonwebtoken::bytes_id(b"k") }
